@@ -344,4 +344,8 @@ WITNESSES = [
     ("accept_iff_wf", {"toks": _deep(200), "seed": 0, "recase": False}),
 ]
 
-PROP = C19()
+from srccall import with_src  # noqa: E402
+
+# translated source: the function itself is proved equal to Lic.canon, the model all theorems are about
+PROP = with_src(C19(), share=10, functions=["canonicalize_license_expression"], module="PkgProofs.Props.Src.License",
+                theorems=["Src.canonicalize_license_expression_translated", "Src.canonicalize_license_expression_eq_model"])
